@@ -60,10 +60,52 @@ def ArgPattern.displays : List ArgPattern → List Str
   | p :: ps => p.display :: ArgPattern.displays ps
 end
 
-/-- `ArgPattern::name()`: the bare identifier of a name, the *displayed* tuple otherwise -/
+/-- `ArgPattern::name()` (as found on the pinned tree): the bare identifier of a name, the
+    *displayed* tuple — `mut` included — otherwise -/
 def ArgPattern.nameStr : ArgPattern → Str
   | .name n => n.name
   | .tuple ps => (ArgPattern.tuple ps).display
+
+mutual
+/-- `ArgPattern::name()` after the repair (`fixes/lower-tuple-pattern-names.patch`): the tuple
+    of the bound names, never a `mut` -/
+def ArgPattern.exprStr : ArgPattern → Str
+  | .name n => n.name
+  | .tuple ps => ['('] ++ joinComma (ArgPattern.exprStrs ps) ++ [')']
+def ArgPattern.exprStrs : List ArgPattern → List Str
+  | [] => []
+  | p :: ps => p.exprStr :: ArgPattern.exprStrs ps
+end
+
+mutual
+/-- `ArgPattern::names()` (added by the repair): the names a pattern binds, left to right -/
+def ArgPattern.leafNames : ArgPattern → List Str
+  | .name n => [n.name]
+  | .tuple ps => ArgPattern.leafNamesList ps
+def ArgPattern.leafNamesList : List ArgPattern → List Str
+  | [] => []
+  | p :: ps => p.leafNames ++ ArgPattern.leafNamesList ps
+end
+
+/-- which of the two source variants of the anchored functions the model follows; detected from
+    /repo's source by `checks/lowerpart.py` on every run -/
+structure Variant where
+  /-- `anon_symbols.first().unwrap()` still present on the "multiple `<>`" error path -/
+  emptyAnonUnwrap : Bool
+  /-- `ArgPattern::name()` renders tuple patterns without `mut` and `{<>}` lists leaf names -/
+  tupleNamesFixed : Bool
+  deriving DecidableEq, Repr
+
+/-- the pinned tree before the two repairs -/
+def Variant.pinned : Variant := { emptyAnonUnwrap := true, tupleNamesFixed := false }
+
+/-- what `<>` stands for, per named symbol -/
+def Variant.nameOf (v : Variant) (p : ArgPattern) : Str :=
+  if v.tupleNamesFixed then p.exprStr else p.nameStr
+
+/-- what `<>` stands for inside `{ }`, per named symbol -/
+def Variant.curlyNamesOf (v : Variant) (p : ArgPattern) : List Str :=
+  if v.tupleNamesFixed then p.leafNames else [p.nameStr]
 
 /-! ### symbols of an alternative after macro expansion -/
 
@@ -261,23 +303,21 @@ def defaultAction {B : Type} (isUnit : Bool) (normalized : Symbols B) : Str :=
       | .anon indices => indices.length
     if len = 1 then ['<', '>'] else ['(', '<', '>', ')']
 
-/-- `LowerState::action_fn`; `isUnit` = `nt_type.is_unit()` -/
-def actionFn {B : Type} (pfx : Str) (isUnit fallible : Bool) (expr : List (Sym B))
-    (symbols : List (RSym B)) (action : Option Str) : Outcome (UserDefn B) :=
-  let normalized := analyzeExpr expr
-  let action := match action with
-    | some s => s
-    | none => defaultAction isUnit normalized
+/-- `LowerState::action_fn` after `let action = match action { … }`: the part that depends on
+    the action string only -/
+def actionFnOn {B : Type} (v : Variant) (pfx : Str) (fallible : Bool) (normalized : Symbols B)
+    (symbols : List (RSym B)) (action : Str) : Outcome (UserDefn B) :=
   match normalized with
   | .named names =>
     match patterns (names.map fun x => (x.1, x.2.1)) symbols.length with
     | none => .assertFailed
     | some argPatterns =>
-      let nameStr := joinComma (names.map fun x => x.2.1.nameStr)
+      let nameStr := joinComma (names.map fun x => v.nameOf x.2.1)
+      let curlyStr := joinComma (names.flatMap fun x => v.curlyNamesOf x.2.1)
       let code := match checkBetweenBraces action with
         | .none => action
         | .normal => replaceAngle nameStr action
-        | .inCurlyBrackets => replaceAngle nameStr action
+        | .inCurlyBrackets => replaceAngle curlyStr action
       .ok { fallible := fallible, argPatterns := argPatterns, argTypes := symbols, code := code }
   | .anon anon =>
     let names := (List.range anon.length).map (freshName pfx)
@@ -289,7 +329,9 @@ def actionFn {B : Type} (pfx : Str) (isUnit fallible : Bool) (expr : List (Sym B
       if countAngle action > 1 then
         if countAngle action ≠ names.length then
           match anon with
-          | [] => .panic                          -- `anon_symbols.first().unwrap()`
+          | [] =>
+            if v.emptyAnonUnwrap then .panic        -- `anon_symbols.first().unwrap()`
+            else .error (countAngle action) names.length
           | _ :: _ => .error (countAngle action) names.length
         else
           .ok { fallible := fallible, argPatterns := argPatterns, argTypes := symbols
@@ -297,6 +339,15 @@ def actionFn {B : Type} (pfx : Str) (isUnit fallible : Bool) (expr : List (Sym B
       else
         .ok { fallible := fallible, argPatterns := argPatterns, argTypes := symbols
               code := replaceAngle nameStr action }
+
+/-- `LowerState::action_fn`; `isUnit` = `nt_type.is_unit()` -/
+def actionFn {B : Type} (v : Variant) (pfx : Str) (isUnit fallible : Bool) (expr : List (Sym B))
+    (symbols : List (RSym B)) (action : Option Str) : Outcome (UserDefn B) :=
+  let normalized := analyzeExpr expr
+  let action := match action with
+    | some s => s
+    | none => defaultAction isUnit normalized
+  actionFnOn v pfx fallible normalized symbols action
 
 /-! ### lower/mod.rs: `action_kind`, creation order of the action functions -/
 
@@ -335,25 +386,25 @@ def Outcome.map {α β : Type} (f : α → β) : Outcome α → Outcome β
   | .panic => .panic
 
 /-- `LowerState::action_kind` -/
-def actionKind {B : Type} (pfx : Str) (isUnit : Bool) (expr : List (Sym B))
+def actionKind {B : Type} (v : Variant) (pfx : Str) (isUnit : Bool) (expr : List (Sym B))
     (symbols : List (RSym B)) : Option ActionKind → Outcome (DefnKind B)
   | some .lookahead => .ok .lookahead
   | some .lookbehind => .ok .lookbehind
-  | some (.user s) => (actionFn pfx isUnit false expr symbols (some s)).map .user
-  | some (.fallible s) => (actionFn pfx isUnit true expr symbols (some s)).map .user
-  | none => (actionFn pfx isUnit false expr symbols none).map .user
+  | some (.user s) => (actionFn v pfx isUnit false expr symbols (some s)).map .user
+  | some (.fallible s) => (actionFn v pfx isUnit true expr symbols (some s)).map .user
+  | none => (actionFn v pfx isUnit false expr symbols none).map .user
 
 /-- the alternatives of one nonterminal, in order; `defs` = `action_fn_defns` so far -/
-def lowerAlts {B : Type} (pfx : Str) (isUnit : Bool) :
+def lowerAlts {B : Type} (v : Variant) (pfx : Str) (isUnit : Bool) :
     List (Alt B) → List (DefnKind B) → Outcome (List (Prod B) × List (DefnKind B))
   | [], defs => .ok ([], defs)
   | alt :: rest, defs =>
     match lowerSymbols alt.expr with
     | none => .panic                                   -- `unreachable!` in `symbol`
     | some symbols =>
-      match actionKind pfx isUnit alt.expr symbols alt.action with
+      match actionKind v pfx isUnit alt.expr symbols alt.action with
       | .ok d =>
-        match lowerAlts pfx isUnit rest (defs ++ [d]) with
+        match lowerAlts v pfx isUnit rest (defs ++ [d]) with
         | .ok (ps, defs') => .ok ({ symbols := symbols, action := defs.length } :: ps, defs')
         | .error a s => .error a s
         | .assertFailed => .assertFailed
@@ -363,13 +414,13 @@ def lowerAlts {B : Type} (pfx : Str) (isUnit : Bool) :
       | .panic => .panic
 
 /-- the `GrammarItem::Nonterminal` arm of the loop over `grammar.items` -/
-def lowerNts {B : Type} (pfx : Str) :
+def lowerNts {B : Type} (v : Variant) (pfx : Str) :
     List (Nt B) → List (DefnKind B) → Outcome (List (B × List (Prod B)) × List (DefnKind B))
   | [], defs => .ok ([], defs)
   | nt :: rest, defs =>
-    match lowerAlts pfx nt.isUnit nt.alts defs with
+    match lowerAlts v pfx nt.isUnit nt.alts defs with
     | .ok (ps, defs1) =>
-      match lowerNts pfx rest defs1 with
+      match lowerNts v pfx rest defs1 with
       | .ok (out, defs2) => .ok ((nt.name, ps) :: out, defs2)
       | .error a s => .error a s
       | .assertFailed => .assertFailed
@@ -381,14 +432,14 @@ def lowerNts {B : Type} (pfx : Str) :
 /-- `synthesize_start_symbols`: one production `__Foo = Foo` per `pub` nonterminal, in item
     order; `fake` builds the name `{prefix}{name}`. The expression handed to `action_fn` is the
     single symbol `Nonterminal(fake_name)`. -/
-def lowerStarts {B : Type} (pfx : Str) (fake : B → B) :
+def lowerStarts {B : Type} (v : Variant) (pfx : Str) (fake : B → B) :
     List (Nt B) → List (DefnKind B) → Outcome (List (B × List (Prod B)) × List (DefnKind B))
   | [], defs => .ok ([], defs)
   | nt :: rest, defs =>
     if nt.isPub then
-      match actionFn pfx nt.isUnit false [Sym.base (fake nt.name)] [RSym.base nt.name] none with
+      match actionFn v pfx nt.isUnit false [Sym.base (fake nt.name)] [RSym.base nt.name] none with
       | .ok d =>
-        match lowerStarts pfx fake rest (defs ++ [.user d]) with
+        match lowerStarts v pfx fake rest (defs ++ [.user d]) with
         | .ok (out, defs') =>
           .ok ((fake nt.name, [{ symbols := [RSym.base nt.name], action := defs.length }]) :: out, defs')
         | .error a s => .error a s
@@ -397,7 +448,7 @@ def lowerStarts {B : Type} (pfx : Str) (fake : B → B) :
       | .error a s => .error a s
       | .assertFailed => .assertFailed
       | .panic => .panic
-    else lowerStarts pfx fake rest defs
+    else lowerStarts v pfx fake rest defs
 
 structure Lowered (B : Type) where
   starts : List (B × List (Prod B))
@@ -405,10 +456,10 @@ structure Lowered (B : Type) where
   defs : List (DefnKind B)
 
 /-- the part of `LowerState::lower` that creates productions and action functions -/
-def lowerGrammar {B : Type} (pfx : Str) (fake : B → B) (nts : List (Nt B)) : Outcome (Lowered B) :=
-  match lowerStarts pfx fake nts [] with
+def lowerGrammar {B : Type} (v : Variant) (pfx : Str) (fake : B → B) (nts : List (Nt B)) : Outcome (Lowered B) :=
+  match lowerStarts v pfx fake nts [] with
   | .ok (starts, defs0) =>
-    match lowerNts pfx nts defs0 with
+    match lowerNts v pfx nts defs0 with
     | .ok (out, defs) => .ok { starts := starts, nts := out, defs := defs }
     | .error a s => .error a s
     | .assertFailed => .assertFailed
@@ -503,12 +554,15 @@ def lookaroundAction {L : Type} (k : Look) (lookbehind lookahead : L) : L :=
   | .ahead => lookahead
   | .behind => lookbehind
 
+/-- what the first loop of `emit_inline_action_code` does for one step -/
+def stepSpan {L : Type} (env : Env L) (numFlat : Nat) : Step → Option (Option (L × L))
+  | .orig _ => none
+  | .inl _ _ a len => some (tempSpan env numFlat a len)
+
 /-- spans computed by the first loop of `emit_inline_action_code` for all inlined symbols of
     `symbols`, in order (one entry per `Step.inl`) -/
 def tempSpans {L N T : Type} (env : Env L) (symbols : List (InlinedSymbol N T)) : List (Option (L × L)) :=
-  (plan symbols).filterMap fun
-    | .orig _ => none
-    | .inl _ _ a len => some (tempSpan env (numFlatArgs symbols) a len)
+  (plan symbols).filterMap (stepSpan env (numFlatArgs symbols))
 
 /-- the span handed to the inlined symbol at position `pre.length` of `pre ++ sym :: post` -/
 def spanAt {L N T : Type} (env : Env L) (pre : List (InlinedSymbol N T)) (sym : InlinedSymbol N T)
